@@ -24,9 +24,34 @@ const (
 )
 
 type gor struct {
-	ID    int64
-	State string
-	Text  string
+	ID     int64
+	State  string
+	Text   string
+	Parked bool
+}
+
+// isParked decides from a goroutine's dump block whether it is parked on something only another goroutine
+// of the program can release: a channel operation, a select, or sync.WaitGroup.Wait.
+//
+// The wait reason "semacquire" needs care: sync.WaitGroup.Wait reports it, but so do the runtime's own
+// semaphores.  In particular a goroutine whose allocation wants to start a GC cycle blocks on the
+// world-stop semaphore while THIS harness holds it for runtime.Stack(all) - it shows "[semacquire]" with
+// an ordinary user frame on top (the runtime frames are hidden), and it continues by itself as soon as
+// the dump ends.  Counting it as parked made a snapshot look quiescent while the program was in the
+// middle of its work (seen about once in 5000 subscriptions under machine load).  So "semacquire" only
+// counts when the blocking frames are sync.runtime_Semacquire <- sync.(*WaitGroup).Wait.
+func isParked(state string, blk []byte) bool {
+	switch state {
+	case "chan receive", "chan send", "select", "chan receive (nil chan)", "chan send (nil chan)", "select (no cases)",
+		"sync.WaitGroup.Wait":
+		return true
+	case "semacquire":
+		lines := bytes.Split(blk, []byte("\n"))
+		// lines: header, func, \tfile:line, func, \tfile:line, ...
+		return len(lines) >= 4 && bytes.HasPrefix(lines[1], []byte("sync.runtime_Semacquire(")) &&
+			bytes.HasPrefix(lines[3], []byte("sync.(*WaitGroup).Wait("))
+	}
+	return false
 }
 
 var stackBuf = make([]byte, 1<<16)
@@ -35,7 +60,6 @@ func dumpAll() []byte {
 	for {
 		n := runtime.Stack(stackBuf, true)
 		if n < len(stackBuf) {
-			lastDumpLen = n
 			return stackBuf[:n]
 		}
 		stackBuf = make([]byte, 2*len(stackBuf))
@@ -75,18 +99,9 @@ func interesting(base map[int64]struct{}) []gor {
 		if i := strings.IndexAny(st, ",]"); i >= 0 {
 			st = st[:i]
 		}
-		out = append(out, gor{ID: id, State: st, Text: s})
+		out = append(out, gor{ID: id, State: st, Text: s, Parked: isParked(st, blk)})
 	}
 	return out
-}
-
-func parked(state string) bool {
-	switch state {
-	case "chan receive", "chan send", "select", "semacquire", "sync.WaitGroup.Wait",
-		"chan receive (nil chan)", "chan send (nil chan)", "select (no cases)":
-		return true
-	}
-	return false
 }
 
 // waitQuiet polls until every goroutine of interest (outside base) is parked and returns them.
@@ -97,7 +112,7 @@ func waitQuiet(base map[int64]struct{}) (gs []gor, ok bool) {
 		gs = interesting(base)
 		quiet := true
 		for _, g := range gs {
-			if !parked(g.State) {
+			if !g.Parked {
 				quiet = false
 				break
 			}
@@ -155,7 +170,7 @@ func allGoroutines() []gor {
 		if i := strings.IndexAny(st, ",]"); i >= 0 {
 			st = st[:i]
 		}
-		out = append(out, gor{ID: id, State: st})
+		out = append(out, gor{ID: id, State: st, Parked: isParked(st, blk)})
 	}
 	return out
 }
@@ -178,13 +193,12 @@ func waitQuietAll(base map[int64]struct{}) bool {
 			if _, ok := base[g.ID]; ok {
 				continue
 			}
-			if !parked(g.State) {
+			if !g.Parked {
 				quiet = false
 				break
 			}
 		}
 		if quiet {
-			lastQuietDump = string(stackBuf[:lastDumpLen])
 			return true
 		}
 		if time.Now().After(deadline) {
@@ -197,6 +211,3 @@ func waitQuietAll(base map[int64]struct{}) bool {
 		}
 	}
 }
-
-var lastQuietDump string
-var lastDumpLen int
